@@ -68,10 +68,21 @@ var vSplit *vRng
 var vSplits int
 
 func vLineMulti(k string, args []string, unit int) []*vSeg {
-	if vSplit != nil && len(args) >= 2*unit && vSplit.Intn(100) < 60 {
-		cut := unit * (1 + vSplit.Intn(len(args)/unit-1))
+	n := len(args) / unit
+	if vSplit != nil && n >= 2 && vSplit.Intn(100) < 75 {
+		// two or three lines, each with one or more values
+		cuts := []int{1 + vSplit.Intn(n-1)}
+		if n-cuts[0] >= 2 && vSplit.Intn(100) < 50 {
+			cuts = append(cuts, cuts[0]+1+vSplit.Intn(n-cuts[0]-1))
+		}
 		vSplits++
-		return []*vSeg{vLine(append([]string{k}, args[:cut]...)...), vLine(append([]string{k}, args[cut:]...)...)}
+		var r []*vSeg
+		prev := 0
+		for _, c := range append(cuts, n) {
+			r = append(r, vLine(append([]string{k}, args[prev*unit:c*unit]...)...))
+			prev = c
+		}
+		return r
 	}
 	return vLineIf(k, args)
 }
@@ -273,6 +284,9 @@ func (g *vGen) distinct(l []string, min, max int) []string {
 }
 func (g *vGen) some(l []string, min, max int) []string {
 	n := min + g.r.Intn(max-min+1)
+	if vSplit != nil { // repeated-option mode: lists long enough to be spread over several lines
+		n = max
+	}
 	r := make([]string, 0, n)
 	for i := 0; i < n; i++ {
 		r = append(r, g.pick(l))
@@ -289,6 +303,9 @@ func (g *vGen) ranges(min, max int) (words, js []string, coq string) {
 }
 func (g *vGen) rangesFrom(cands []string, min, max int) (words, js []string, coq string) {
 	n := min + g.r.Intn(max-min+1)
+	if vSplit != nil {
+		n = max + 1
+	}
 	var cs []string
 	for i := 0; i < n; i++ {
 		if g.chance(15) {
@@ -306,6 +323,9 @@ func (g *vGen) rangesFrom(cands []string, min, max int) (words, js []string, coq
 }
 func (g *vGen) ports(min, max int) (words []string, vals []uint64) {
 	n := min + g.r.Intn(max-min+1)
+	if vSplit != nil {
+		n = max + 1
+	}
 	cands := []uint64{0, 1, 22, 53, 80, 443, 1080, 3389, 8080, 65535}
 	for i := 0; i < n; i++ {
 		p := cands[g.r.Intn(len(cands))]
@@ -1262,6 +1282,46 @@ func (g *vGen) handlerLeaf0(kind string) *vLeaf {
 				mseg = []*vSeg{vSetSeg("match", minl, ents)}
 				mc = fmt.Sprintf("(Some (%s, %s))", cBool(minl), cList(cs))
 			}
+			// cert_selection: every option is a list that may be written on several lines
+			var csj any
+			var csseg []*vSeg
+			csc := "None"
+			if g.chance(45) {
+				lines := func(k string, cands []string) ([]*vSeg, []any, string) {
+					var segs []*vSeg
+					var all []any
+					var cl []string
+					nl := g.r.Intn(4)
+					if nl == 3 {
+						nl = 2
+					}
+					for j := 0; j < nl; j++ {
+						vals := make([]string, 1+g.r.Intn(3))
+						for x := range vals {
+							vals[x] = g.pick(cands)
+						}
+						segs = append(segs, vLine(append([]string{k}, vals...)...))
+						all = append(all, jstrs(vals)...)
+						if k == "serial_number" {
+							ns := make([]string, len(vals))
+							for x, v := range vals {
+								ns[x] = v + "%N"
+							}
+							cl = append(cl, cList(ns))
+						} else {
+							cl = append(cl, cStrs(vals))
+						}
+					}
+					return segs, all, cList(cl)
+				}
+				s1, j1, c1 := lines("all_tags", []string{"prod", "edge", "eu", "blue"})
+				s2, j2, c2 := lines("any_tag", []string{"a", "b", "c"})
+				s3, j3, c3 := lines("serial_number", []string{"1001", "1002", "1004", "123456789012", "340282366920938463463374607431768211457"})
+				s4, j4, c4 := lines("subject_organization", []string{"Acme", "Example-Org", "ACME-Co"})
+				csj = vKeep{jobj("serial_number", j3, "subject_organization", j4, "any_tag", j2, "all_tags", j1)}
+				csseg = []*vSeg{vBlock("cert_selection", nil, vCat(s1, s2, s3, s4))}
+				csc = fmt.Sprintf("(Some (CertSel %s %s %s %s))", c1, c2, c3, c4)
+			}
 			pmin, pmax := "", ""
 			if len(protos) > 0 {
 				pmin = protos[0]
@@ -1269,13 +1329,13 @@ func (g *vGen) handlerLeaf0(kind string) *vLeaf {
 			if len(protos) > 1 {
 				pmax = protos[1]
 			}
-			cps = append(cps, jobj("match", match, "cipher_suites", jstrs(ciphers), "curves", jstrs(curves), "alpn", jstrs(alpn),
+			cps = append(cps, jobj("match", match, "certificate_selection", csj, "cipher_suites", jstrs(ciphers), "curves", jstrs(curves), "alpn", jstrs(alpn),
 				"protocol_min", pmin, "protocol_max", pmax, "drop", drop, "default_sni", jstr(dsni), "fallback_sni", jstr(fsni)))
 			ls = append(ls, &vSeg{ws: []string{"connection_policy"}, hb: true,
 				body: vCat(vLineMulti("alpn", alpn, 1), vLineMulti("ciphers", ciphers, 1), vLineMulti("curves", curves, 1),
-					vLineOpt("default_sni", dsni), vLineFlag("drop", drop), vLineOpt("fallback_sni", fsni), vLineIf("protocols", protos), mseg)})
-			cc = append(cc, fmt.Sprintf("ConnPolicy %s %s %s %s %s %s None %s %s", cStrs(alpn), cStrs(ciphers), cStrs(curves),
-				cOptStr(dsni), cBool(drop), cOptStr(fsni), cStrs(protos), mc))
+					vLineOpt("default_sni", dsni), vLineFlag("drop", drop), vLineOpt("fallback_sni", fsni), vLineIf("protocols", protos), csseg, mseg)})
+			cc = append(cc, fmt.Sprintf("ConnPolicy %s %s %s %s %s %s None %s %s %s", cStrs(alpn), cStrs(ciphers), cStrs(curves),
+				cOptStr(dsni), cBool(drop), cOptStr(fsni), cStrs(protos), mc, csc))
 		}
 		return &vLeaf{name: "tls", seg: vBlock("tls", nil, ls), js: jobj("connection_policies", cps),
 			coq: "HTls " + cList(cc), modelled: true}
@@ -1966,7 +2026,7 @@ func vRoutesModelled(routes any) bool {
 			if name == "tls" {
 				cps, _ := vGet(h, "connection_policies").([]any)
 				for _, cp := range cps {
-					if vGet(cp, "certificate_selection") != nil || vGet(cp, "client_authentication") != nil || vGet(cp, "insecure_secrets_log") != nil {
+					if vGet(cp, "certificate_selection", "public_key_algorithm") != nil || vGet(cp, "client_authentication") != nil || vGet(cp, "insecure_secrets_log") != nil {
 						return false
 					}
 					if mm, ok := vGet(cp, "match").(map[string]any); ok && !vTLSSetModelled(mm) {
@@ -2134,7 +2194,7 @@ func TestVerifC15(t *testing.T) {
 		g.big = !lw && i%10 == 5
 		vSplit, vSplits = nil, 0
 		g.optShuffle, g.shuffled = i%2 == 1, 0
-		if i%5 == 1 {
+		if i%5 == 1 || i%5 == 3 {
 			vSplit = g.r
 		}
 		depth := 1 + g.r.Intn(3)
